@@ -193,6 +193,7 @@ def run_check(prop_id: str, tier: str, seed: int, jobs: int | None = None) -> in
 
     known = load_known(prop_id)
     n = 0
+    evaluations = 0
     states = transitions = nontrivial = 0
     outcomes: dict[str, int] = {}
     violations: list[tuple[int, dict, dict]] = []
@@ -215,9 +216,10 @@ def run_check(prop_id: str, tier: str, seed: int, jobs: int | None = None) -> in
     max_keep = 200000
 
     def consume(it):
-        nonlocal n, states, transitions, nontrivial, capped, distinct_cases
+        nonlocal n, states, transitions, nontrivial, capped, distinct_cases, evaluations
         for idx, res in it:
             n += 1
+            evaluations += int(res.get("extra", {}).get("evaluations", 1))
             states += res["states"]
             transitions += res["transitions"]
             outcomes[res["outcome"]] = outcomes.get(res["outcome"], 0) + 1
@@ -330,7 +332,8 @@ def run_check(prop_id: str, tier: str, seed: int, jobs: int | None = None) -> in
             "states": max(states, 0),
             "transitions": max(transitions, 0),
             "traces_validated_against_impl": n,
-            "evaluations": n,
+            "evaluations": max(evaluations, n),
+            "cases": n,
             "distinct_nontrivial": min(nontrivial, distinct_cases),
             "distinct_cases": distinct_cases,
             "distinct_outcomes": len(outcomes),
